@@ -10,7 +10,7 @@ import (
 	"testing"
 	"time"
 
-	"github.com/gotid/god/internal/vrt"
+	vrt "github.com/gotid/god"
 )
 
 // scen is one closed MapReduce program; every goroutine interleaving of it is explored.
